@@ -13,9 +13,9 @@ KW = {"struct": "Kstruct", "trait": "Ktrait", "impl": "Kimpl", "for": "Kfor", "w
       "mut": "Kmut", "'static": "Kstatic", "'erased": "Kerased", "upstream": "Kupstream", "fundamental": "Kfundamental",
       "phantom_data": "Kphantom_data", "auto": "Kauto", "marker": "Kmarker", "non_enumerable": "Knon_enumerable",
       "coinductive": "Kcoinductive", "object_safe": "Kobject_safe", "enum": "Kenum", "one_zst": "Kone_zst", "str": "Kstr",
-      "const": "Kconst"}
+      "const": "Kconst", "int": "Kint", "float": "Kfloat"}
 PUNCT = {"<": "PLt", ">": "PGt", "(": "PLParen", ")": "PRParen", "{": "PLBrace", "}": "PRBrace", "[": "PLBracket",
-         "]": "PRBracket", ",": "PComma", ":": "PColon", "&": "PAmp", "!": "PBang", "#": "PHash", "*": "PStar"}
+         "]": "PRBracket", ",": "PComma", ":": "PColon", "&": "PAmp", "!": "PBang", "#": "PHash", "*": "PStar", ";": "PSemi"}
 
 
 def item_name(n):
@@ -41,6 +41,8 @@ def tok_term(t: str, names):
     m = re.fullmatch(r"field_(\d+)", t)
     if m:
         return ("FIELD", Nat(int(m.group(1))))
+    if re.fullmatch(r"\d+", t):
+        return ("NUM", int(t))
     m = re.fullmatch(r"variant_(\d+)", t)
     if m:
         return ("VARIANT", Nat(int(m.group(1))))
@@ -54,7 +56,7 @@ class Gen:
         self.r = rng
 
     def kinds(self, maxn=3):
-        return [self.r.choice(["KTy", "KTy", "KLt"]) for _ in range(self.r.choice([0, 1, 1, 2, maxn]))]
+        return [self.r.choice(["KTy", "KTy", "KTy", "KLt", "KLt", "KConst", "KInt", "KFloat"]) for _ in range(self.r.choice([0, 1, 1, 2, maxn]))]
 
     def lt(self, scopes):
         """scopes: innermost first, each a list of kinds"""
@@ -64,13 +66,25 @@ class Gen:
             return ("LVar", Pair(Nat(d), Nat(i)))
         return "LStatic" if self.r.random() < 0.8 else "LErased"
 
+    def konst(self, scopes):
+        cands = [(d, i) for d, sc in enumerate(scopes) for i, k in enumerate(sc) if k == "KConst"]
+        if cands and self.r.random() < 0.6:
+            d, i = self.r.choice(cands)
+            return ("CVar", Pair(Nat(d), Nat(i)))
+        return ("CVal", self.r.choice([0, 1, 3, 42, 4294967295]))
+
     def garg(self, kind, scopes, depth):
-        return ("GLt", self.lt(scopes)) if kind == "KLt" else ("GTy", self.ty(scopes, depth))
+        if kind == "KLt":
+            return ("GLt", self.lt(scopes))
+        if kind == "KConst":
+            c = self.konst(scopes)
+            return ("GCVar", c[1]) if c[0] == "CVar" else ("GCVal", c[1])
+        return ("GTy", self.ty(scopes, depth))
 
     def ty(self, scopes, depth=2):
         r = self.r
         c = r.random()
-        tv = [(d, i) for d, sc in enumerate(scopes) for i, k in enumerate(sc) if k == "KTy"]
+        tv = [(d, i) for d, sc in enumerate(scopes) for i, k in enumerate(sc) if k in ("KTy", "KInt", "KFloat")]
         if depth <= 0 or c < 0.3:
             if tv and r.random() < 0.6:
                 d, i = r.choice(tv)
@@ -91,8 +105,10 @@ class Gen:
             return ("TTuple", [self.ty(scopes, depth - 1) for _ in range(r.choice([0, 1, 2, 3]))])
         if c < 0.80:
             return ("TRaw", r.random() < 0.5, self.ty(scopes, depth - 1))
-        if c < 0.86:
+        if c < 0.84:
             return ("TSlice", self.ty(scopes, depth - 1))
+        if c < 0.90:
+            return ("TArray", self.ty(scopes, depth - 1), self.konst(scopes))
         return ("TRef", r.random() < 0.4, self.lt(scopes), self.ty(scopes, depth - 1))
 
     def wc(self, scopes):
@@ -161,6 +177,10 @@ def _pname(level, i, k):
     return ("'%s%d" % (base, i)) if k == "KLt" else ("%s%d" % (base.upper(), i))
 
 
+def _pdecl(level, i, k):
+    return {"KConst": "const ", "KInt": "int ", "KFloat": "float "}.get(k, "") + _pname(level, i, k)
+
+
 class Src:
     def __init__(self, items):
         self.items = items
@@ -190,6 +210,8 @@ class Src:
             return "*" + ("mut " if t[1] else "const ") + self.ty(t[2], sc)
         if h == "TSlice":
             return "[" + self.ty(t[1], sc) + "]"
+        if h == "TArray":
+            return "[" + self.ty(t[1], sc) + "; " + self.konst(t[2], sc) + "]"
         if h == "TVar":
             return self.var(sc, int(t[1][0]), int(t[1][1]))
         if h == "TAdt":
@@ -202,11 +224,20 @@ class Src:
             return "(" + ", ".join(ts) + ("," if len(ts) == 1 else "") + ")"
         return "&" + self.lt(t[2], sc) + (" mut " if t[1] else " ") + self.ty(t[3], sc)
 
+    def konst(self, c, sc):
+        return str(int(c[1])) if c[0] == "CVal" else self.var(sc, int(c[1][0]), int(c[1][1]))
+
     def garg(self, a, sc):
-        return self.ty(a[1], sc) if a[0] == "GTy" else self.lt(a[1], sc)
+        if a[0] == "GTy":
+            return self.ty(a[1], sc)
+        if a[0] == "GLt":
+            return self.lt(a[1], sc)
+        if a[0] == "GCVal":
+            return str(int(a[1]))
+        return self.var(sc, int(a[1][0]), int(a[1][1]))
 
     def params(self, level, ks, skip=0):
-        ps = [_pname(level, i, k) for i, k in enumerate(ks)][skip:]
+        ps = [_pdecl(level, i, k) for i, k in enumerate(ks)][skip:]
         return ("<" + ", ".join(ps) + ">") if ps else ""
 
     def where(self, qs, sc):
@@ -277,6 +308,8 @@ def d_ty(t):
         return ("Raw", "Mut" if t[1] else "Not", d_ty(t[2]))
     if h == "TSlice":
         return ("Slice", d_ty(t[1]))
+    if h == "TArray":
+        return ("Array", d_ty(t[1]), d_konst(t[2]))
     if h == "TVar":
         return _bv("BV", t[1])
     if h == "TAdt":
@@ -288,8 +321,18 @@ def d_ty(t):
     return ("Ref", "Mut" if t[1] else "Not", d_lt(t[2]), d_ty(t[3]))
 
 
+def d_konst(c):
+    return ("CVal", int(c[1])) if c[0] == "CVal" else _bv("CBV", c[1])
+
+
 def d_garg(a):
-    return ("GTy", d_ty(a[1])) if a[0] == "GTy" else ("GLt", d_lt(a[1]))
+    if a[0] == "GTy":
+        return ("GTy", d_ty(a[1]))
+    if a[0] == "GLt":
+        return ("GLt", d_lt(a[1]))
+    if a[0] == "GCVal":
+        return ("GConst", ("CVal", int(a[1])))
+    return ("GConst", _bv("CBV", a[1]))
 
 
 def d_qwcs(qs, self_first=False):
